@@ -1,5 +1,6 @@
 """C11 -- index and slice arithmetic (structural clauses + formula agreement where the RFC's shape is used)."""
 import re
+from vflib import pwl
 from vflib import thir as T, tables
 from vflib.terms import Evaluator, Tm, subterms
 from rules import shared, c08
@@ -12,15 +13,21 @@ META = {
         "extraction is control-dependent on as_array() being Some). R3 every parser constructor range-checks index, start, "
         "end and step. R4 slot mapping: grammar rules start/end/step feed tuple positions 0/1/2, those feed Selector::Slice "
         "fields 0/1/2, those feed the handler's parameters in order, and the parameter that drives the sign dispatch is the "
-        "step. R5 the index/slice handlers cannot panic (interval analysis, shared with C08-R2). R6 formula agreement: the "
-        "handler's bound/default/loop terms are normalised modulo commutativity of min/max and +, constant folding, "
-        "clamp = min(max()), mirrored comparisons and compared with RFC 9535 2.3.4.2.2; when the code has the RFC's formula "
-        "shape every constant, operand and operator must be the RFC's; when it has a different shape (a rewrite) the rule "
-        "abstains and says so -- it never fires on a differently-shaped, possibly equivalent, implementation. Not decided: the "
-        "exact index sequence for all (start, end, step, len) as a value-level statement."),
-    "trusted_base": ["rustc nightly THIR", "vf driver + rules", "RFC 9535 2.3.4.2.2 pseudo-code transcription in this module"],
+        "step. R5 the index/slice handlers cannot panic (interval analysis with a linear-inequality fallback, shared with C08-R2). "
+        "R6 agreement with RFC 9535 2.3.4.2.2 / 2.3.3.2: direction guards, loop condition, increment and the element fetch are "
+        "compared with the RFC's pseudo-code after normalisation (commutativity of min/max and +, constant folding, clamp = "
+        "min(max()), mirrored comparisons, Option::map/unwrap_or). The first index and stop bound of each walk are decided by "
+        "REGION ANALYSIS: both the code's and the RFC's formulas are piecewise linear in (len, start, end); their domains are "
+        "partitioned into regions of linear inequalities, and in every region the two walks must select the same in-range "
+        "indices for every step of that sign (criterion and proof in vflib/pwl.py: live <=> live', and live => equal first "
+        "index and equal clipped stop). Empty regions are shown empty by Fourier-Motzkin elimination; a deviation is reported "
+        "only with an integer witness (query, array length, both index lists). The index selector is decided the same way "
+        "(every fetch site selects exactly the RFC's element under its guards; every in-range index reaches a fetch). A "
+        "textually different but equivalent implementation is proved equivalent, not flagged; an operator outside the "
+        "piecewise-linear language makes R6 abstain with a note."),
+    "trusted_base": ["rustc nightly THIR", "vf driver + rules", "RFC 9535 2.3.4.2.2 pseudo-code transcription in this module", "vflib/pwl.py (Fourier-Motzkin elimination, walk-equivalence criterion)"],
     "assumptions": ["collections hold at most 2^62 elements"],
-    "not_decided": ["exact index sequence for all (start, end, step, len) when the implementation does not use the RFC's formula shape"],
+    "not_decided": ["slice/index handlers whose bound computation is not piecewise linear over (len, start, end) or not two counter loops (R6 abstains with a note)"],
 }
 
 Q = "crate::query::Query"
@@ -252,6 +259,18 @@ def norm(prog, t, names, len_of, depth=0):
                               norm(prog, t.a[3], names, len_of, depth + 1)])
         if m == "unwrap_or" and len(t.a) == 3:
             return ("default", norm(prog, t.a[1], names, len_of, depth + 1), norm(prog, t.a[2], names, len_of, depth + 1))
+        if t.a[0] == "core::option::Option::<T>::map" and len(t.a) == 3 and t.a[2].k in ("closure", "fnitem") and EV[0] is not None:
+            opt = norm(prog, t.a[1], names, len_of, depth + 1)
+            lvl = sum(1 for v in names.values() if v.startswith("#"))
+            hole = Tm("param", (90 + lvl, "payload"))
+            n2 = dict(names)
+            n2[hole] = "#%d" % lvl
+            body = norm(prog, EV[0].apply(t.a[2], [hole]), n2, len_of, depth + 1)
+            return ("optmap", opt, "#%d" % lvl, body)
+        if m in ("abs", "unsigned_abs") and len(t.a) == 2:
+            return ("abs", norm(prog, t.a[1], names, len_of, depth + 1))
+        if m in ("copied", "cloned") and len(t.a) == 2:
+            return norm(prog, t.a[1], names, len_of, depth + 1)
         return ("call", m)
     if k == "bin":
         op = t.a[0]
@@ -278,6 +297,86 @@ def norm(prog, t, names, len_of, depth=0):
         if len(alts) == 1:
             return norm(prog, alts[0], names, len_of, depth + 1)
     return ("?", k)
+
+
+EV = [None]      # evaluator used by norm() to apply closures handed to Option::map
+
+
+def substitute(x, name, repl):
+    if not isinstance(x, tuple):
+        return x
+    if x == ("var", name):
+        return repl
+    return tuple(substitute(y, name, repl) if isinstance(y, tuple) else y for y in x)
+
+
+def resolve(x, present):
+    """Eliminate the Option layer for one presence assignment {name: bool}: ('var', n) of an Option parameter becomes
+    ('val', n); `default`/`optmap` are reduced.  -> integer-valued tree, or raises pwl.Undecided."""
+    def opt(o):
+        # -> ('some', tree) | ('none',)
+        if o[0] == "var" and o[1] in present:
+            return ("some", ("val", o[1])) if present[o[1]] else ("none",)
+        if o[0] == "optmap":
+            inner = opt(o[1])
+            if inner[0] == "none":
+                return inner
+            return ("some", val(substitute(o[3], o[2], inner[1])))
+        raise pwl.Undecided("option expression `%s`" % show(o)[:80])
+
+    def val(t):
+        if not isinstance(t, tuple):
+            return t
+        h = t[0]
+        if h == "default":
+            o = opt(t[1])
+            return o[1] if o[0] == "some" else val(t[2])
+        if h in ("min", "max", "add"):
+            return mk(h, [val(y) for y in t[1]])
+        if h == "neg":
+            return neg(val(t[1]))
+        if h == "ite":
+            return ("ite", (t[1][0], val(t[1][1]), val(t[1][2])) if t[1][0] in ("lt", "nlt") else t[1], val(t[2]), val(t[3]))
+        if h == "var" and t[1] in present:
+            raise pwl.Undecided("Option parameter `%s` used as an integer" % t[1])
+        if h in ("optmap",):
+            raise pwl.Undecided("Option used as an integer")
+        return t
+    return val(x)
+
+
+def region_compare(direction, got, want, bounds):
+    """got/want = (init, bound) normalised trees.  -> ('equal', stats) | ('different', text, stats) ; raises pwl.Undecided"""
+    lo, hi = bounds
+    total = {"regions": 0, "queries": 0, "presence_cases": 0}
+    for ps, pe in ((True, True), (True, False), (False, True), (False, False)):
+        present = {"start": ps, "end": pe, "step": True}
+        g = (resolve(got[0], present), resolve(got[1], present))
+        w = (resolve(want[0], present), resolve(want[1], present))
+        if g == w:
+            total["presence_cases"] += 1
+            continue
+        order = ["start", "end", "len"]
+        domain = [{"len": 1}, {"len": -1, 1: 2 ** 47}]
+        for v in ("start", "end"):
+            domain += [{v: 1, 1: -lo}, {v: -1, 1: hi}]
+        wit, vals, stats = pwl.walk_diff(direction, g, w, domain, order)
+        total["presence_cases"] += 1
+        total["regions"] += stats["regions"]
+        total["queries"] += stats["queries"]
+        if wit is not None:
+            length = wit.get("len", 0)
+            # certify on the model walks: find a step for which the emitted indices differ
+            sgn = 1 if direction == "pos" else -1
+            for mag in (1, 2, 3, abs(vals["init"][0]) or 1, abs(vals["init"][1]) or 1, length + abs(vals["init"][0]) + abs(vals["init"][1]) + 1):
+                a = pwl.emitted(direction, vals["init"][0], vals["stop"][0], sgn * mag, length)
+                b = pwl.emitted(direction, vals["init"][1], vals["stop"][1], sgn * mag, length)
+                if a != b:
+                    q = "[%s:%s:%d]" % (wit["start"] if ps else "", wit["end"] if pe else "", sgn * mag)
+                    return ("different", "for `%s` on an array of %d elements the code walks from %d to (excl.) %d and selects indices %s, "
+                            "RFC 9535 walks from %d to %d and selects %s" % (q, length, vals["init"][0], vals["stop"][0], a, vals["init"][1], vals["stop"][1], b), total)
+            raise pwl.Undecided("a differing region was found but no step made the difference visible")
+    return ("equal", total)
 
 
 def neg(x):
@@ -417,6 +516,12 @@ def show(x):
         return "%s.unwrap_or(%s)" % (show(x[1]), show(x[2]))
     if h == "ite":
         return "(if %s {%s} else {%s})" % (show(x[1]), show(x[2]), show(x[3]))
+    if h == "abs":
+        return "|%s|" % show(x[1])
+    if h == "optmap":
+        return "%s.map(|%s| %s)" % (show(x[1]), x[2], show(x[3]))
+    if h == "val":
+        return x[1]
     if h == "lt":
         return "%s < %s" % (show(x[1]), show(x[2]))
     if h == "nlt":
@@ -424,10 +529,41 @@ def show(x):
     return str(x)
 
 
+def region_selfcheck(rep):
+    """the region analysis must call known-equivalent rewrites equal and known-different ones different, on every run"""
+    m = rfc_model()
+    S, E = V("start"), V("end")
+    nrm = lambda hole: ("ite", ("nlt", hole, C(0)), hole, mk("add", [LEN, hole]))
+    # equivalent: pos walk without the redundant clamps (init not clamped to len, bound not clamped to 0), Option::map style
+    eq_pos = (mk("max", [("default", ("optmap", S, "#", nrm(("var", "#"))), C(0)), C(0)]),
+              mk("min", [("default", ("optmap", E, "#", nrm(("var", "#"))), LEN), LEN]))
+    # equivalent: neg walk with the absent end defaulting directly to -1 and the bound not clamped from above
+    eq_neg = (m["neg"]["init"], mk("max", [("default", ("optmap", E, "#", nrm(("var", "#"))), C(-1)), C(-1)]))
+    # different: explicit negative bounds clamped to 0 before use (loses index 0 going down)
+    nrm0 = lambda hole: ("ite", ("nlt", hole, C(0)), hole, mk("max", [mk("add", [LEN, hole]), C(0)]))
+    df_neg = (m["neg"]["init"], mk("min", [mk("max", [("default", ("optmap", E, "#", nrm0(("var", "#"))), C(-1)), C(-1)]), mk("add", [LEN, C(-1)])]))
+    # different: pos init clamped to len - 1
+    df_pos = (mk("min", [mk("max", [rfc_norm(("default", S, C(0))), C(0)]), mk("add", [LEN, C(-1)])]), m["pos"]["bound"])
+    from vflib.intervals import IJSON
+    res = []
+    for name, d, g, expect in (("eq_pos", "pos", eq_pos, "equal"), ("eq_neg", "neg", eq_neg, "equal"), ("df_neg", "neg", df_neg, "different"), ("df_pos", "pos", df_pos, "different")):
+        try:
+            r = region_compare(d, g, (m[d]["init"], m[d]["bound"]), IJSON)[0]
+        except pwl.Undecided as u:
+            r = "undecided: %s" % u
+        res.append((name, r == expect, r))
+    rep.control("C11-R6", all(ok for _, ok, _ in res), "region analysis self-check: 2 equivalent rewrites proved equal, 2 deviating ones separated with a witness (%s)" % ", ".join("%s=%s" % (n, r) for n, _, r in res))
+
+
 def r6(prog, ev, rep, slice_fn, slice_args, index_fn, index_args):
-    rep.rule("C11-R6", "formula agreement with RFC 9535 2.3.4.2.2 where the implementation uses the RFC's formula shape: sign "
-             "guards, defaults, normalisation, clamping bounds, loop condition and step of both directions (abstains on a "
-             "differently shaped implementation)")
+    rep.rule("C11-R6", "agreement with RFC 9535 2.3.4.2.2 / 2.3.3.2: sign guards, loop condition, increment, element fetch; first index "
+             "and stop bound of both walks and the index selector's guards by region analysis of the piecewise-linear formulas "
+             "(equivalent rewrites are proved equivalent; deviations come with an integer witness)", floor=14)
+    EV[0] = ev
+    okv, _sites = shared.all_int_slots_validated(prog, ev)
+    from vflib.intervals import IJSON
+    int_bounds = IJSON if okv else (-2 ** 63, 2 ** 63 - 1)
+    region_selfcheck(rep)
     names = {}
     for slot, nm in ((0, "start"), (1, "end"), (2, "step")):
         i = slice_args[slot]
@@ -502,7 +638,26 @@ def r6(prog, ev, rep, slice_fn, slice_args, index_fn, index_args):
                 continue
             decided += 1
             rep.ok("C11-R6", key + "/condition", where, mdl["cond"])
-            for what, got, want in (("init", init, mdl["init"]), ("bound", bound, mdl["bound"]), ("step", stepn, model["step"])):
+            if init == mdl["init"] and bound == mdl["bound"]:
+                rep.ok("C11-R6", "%s/init" % key, where, show(mdl["init"])[:150])
+                rep.ok("C11-R6", "%s/bound" % key, where, show(mdl["bound"])[:150])
+                decided += 2
+            else:
+                # not the RFC's text: decide by region analysis whether the two walks select the same indices for every
+                # (len, start, end, step of this sign)
+                try:
+                    res = region_compare(direction, (init, bound), (mdl["init"], mdl["bound"]), int_bounds)
+                    if res[0] == "equal":
+                        rep.ok("C11-R6", "%s/init" % key, where, "differs textually from RFC 9535 but selects the same indices in all %d regions (%d emptiness queries)" % (res[1]["regions"], res[1]["queries"]))
+                        rep.ok("C11-R6", "%s/bound" % key, where, "same")
+                    else:
+                        rep.bad("C11-R6", "%s/walk" % key, where,
+                                "the %s-step walk does not select the elements RFC 9535 2.3.4.2.2 selects: %s" % ("positive" if direction == "pos" else "negative", res[1]))
+                    rep.extra.setdefault("c11_r6_region_analysis", []).append({"direction": direction, "verdict": res[0], "stats": res[-1]})
+                    decided += 2
+                except pwl.Undecided as u:
+                    abstain.append("%s walk: init `%s`, bound `%s` are not the RFC's text and region analysis is undecided (%s)" % (direction, show(init)[:100], show(bound)[:100], u))
+            for what, got, want in (("step", stepn, model["step"]),):
                 if got == want:
                     rep.ok("C11-R6", "%s/%s" % (key, what), where, show(want)[:150]); decided += 1
                 elif shape(got) == shape(want):
@@ -523,43 +678,111 @@ def r6(prog, ev, rep, slice_fn, slice_args, index_fn, index_args):
         rep.note("C11-R6 abstains: " + a)
     rep.extra["c11_r6_decided"] = decided
     rep.extra["c11_r6_abstained"] = abstain
-    # index selector: i >= 0 -> a[i] if i < len ; i < 0 -> a[len - |i|] if |i| <= len   (same treatment)
-    inames = {Tm("param", (index_args[0], c08._pname(prog, index_fn, index_args[0]))): "i"}
-    isites = [s for s in ev.sited(index_fn) if s["kind"] == "call" and s["term"].a[0].endswith("Index<I>>::index")]
-    for s in isites:
+    # index selector: RFC 9535 2.3.3.2: i >= 0 selects a[i] iff i < len ; i < 0 selects a[len + i] iff len + i >= 0
+    try:
+        index_region_check(prog, ev, rep, index_fn, index_args, int_bounds)
+    except pwl.Undecided as u:
+        rep.note("C11-R6 abstains on the index selector: %s" % u)
+        rep.extra.setdefault("c11_r6_abstained", []).append("index selector: %s" % u)
+
+
+def cmp_cases(g):
+    """g = ('lt'|'nlt', x, y) over integer trees -> list of constraint lists"""
+    if g[0] not in ("lt", "nlt"):
+        raise pwl.Undecided("guard `%s` is not an integer comparison" % show(g)[:80])
+    out = []
+    for (cx, rx), (cy, ry) in pwl.product(pwl.cases(g[1]), pwl.cases(g[2])):
+        out.append(cx + cy + [pwl.gt(ry, rx) if g[0] == "lt" else pwl.ge(rx, ry)])
+    return out
+
+
+def flip(g):
+    return ("nlt" if g[0] == "lt" else "lt", g[1], g[2]) if g[0] in ("lt", "nlt") else g
+
+
+def index_region_check(prog, ev, rep, index_fn, index_args, int_bounds):
+    p = Tm("param", (index_args[0], c08._pname(prog, index_fn, index_args[0])))
+    inames = {p: "i"}
+    I = ("val", "i")
+    sites = []
+    for s in ev.sited(index_fn):
+        if s["kind"] != "call":
+            continue
+        nm = s["term"].a[0]
+        if nm.endswith("Index<I>>::index"):
+            sites.append((s, False))
+        elif nm == "core::slice::<impl [T]>::get":
+            sites.append((s, True))
+    if not sites:
+        raise pwl.Undecided("no element fetch (indexing or get) found in the handler")
+    lo, hi = int_bounds
+    domain = [{"len": 1}, {"len": -1, 1: 2 ** 47}, {"i": 1, 1: -lo}, {"i": -1, 1: hi}]
+    order = ["i", "len"]
+    R = {"non-negative": ([{"i": 1}, {"len": 1, "i": -1, 1: -1}], {"i": 1}),
+         "negative": ([{"i": -1, 1: -1}, {"len": 1, "i": 1}], {"len": 1, "i": 1})}
+    OUT = {"i >= len": [{"i": 1, "len": -1}], "i < -len": [{"i": -1, "len": -1, 1: -1}]}
+    stats = {"sites": len(sites), "queries": 0}
+    site_guards = []
+    problems = []
+    for s, filtered in sites:
         arr = s["term"].a[1]
-        ix = norm(prog, s["term"].a[2], inames, arr)
-        fs = []
+        ix = substitute(norm(prog, s["term"].a[2], inames, arr), "i", I)
+        guards = []
         for c in s["pc"]:
-            if c[0] == "if" and c[1].k == "bin":
-                n = norm(prog, c[1], inames, arr)
-                if not c[2]:
-                    n = ("nlt" if n[0] == "lt" else "lt", n[1], n[2]) if n[0] in ("lt", "nlt") else n
-                fs.append(n)
-        I = V("i")
-        absI = ("call", "abs")
-        pos_want = (I, [("nlt", I, C(0)), ("lt", I, LEN)])
-        if ix == I:
-            ok = sorted(fs, key=repr) == sorted(pos_want[1], key=repr)
-            if ok:
-                rep.ok("C11-R6", "%s|non-negative" % index_fn, T.loc(s["node"]), "0 <= i < len -> a[i]")
-            elif sorted((shape(a) for a in fs), key=repr) == sorted((shape(b) for b in pos_want[1]), key=repr):
-                rep.bad("C11-R6", "%s|non-negative" % index_fn, T.loc(s["node"]),
-                        "a[i] is selected under %s; RFC 9535 selects it exactly when 0 <= i < len" % [show(f) for f in fs])
-            else:
-                rep.note("C11-R6 abstains: index selector (non-negative branch) has guards %s" % [show(f) for f in fs])
-        elif ix == mk("add", [LEN, neg(absI)]) or ix == mk("add", [LEN, I]):
-            want = [("lt", I, C(0)), ("nlt", LEN, absI)] if ix != mk("add", [LEN, I]) else [("lt", I, C(0))]
-            ok = sorted(fs, key=repr) == sorted(want, key=repr)
-            if ok:
-                rep.ok("C11-R6", "%s|negative" % index_fn, T.loc(s["node"]), "i < 0, |i| <= len -> a[len - |i|]")
-            elif sorted((shape(a) for a in fs), key=repr) == sorted((shape(b) for b in want), key=repr):
-                rep.bad("C11-R6", "%s|negative" % index_fn, T.loc(s["node"]),
-                        "a[len - |i|] is selected under %s; RFC 9535 selects it exactly when i < 0 and |i| <= len" % [show(f) for f in fs])
-            else:
-                rep.note("C11-R6 abstains: index selector (negative branch) has guards %s" % [show(f) for f in fs])
+            if c[0] == "if":
+                if c[1].k != "bin":
+                    raise pwl.Undecided("guard `%s`" % str(c[1])[:80])
+                n = substitute(norm(prog, c[1], inames, arr), "i", I)
+                guards.append(n if c[2] else flip(n))
+        if filtered:
+            guards += [("nlt", ix, C(0)), ("lt", ix, LEN)]
+        site_guards.append(guards)
+        where = T.loc(s["node"])
+        conj = [[]]
+        for g in guards:
+            conj = [a + b for a in conj for b in cmp_cases(g)]
+        found = None
+        for c in conj:
+            for cx, form in pwl.cases(ix):
+                base = domain + c + cx
+                for rname, (rc, want) in R.items():
+                    if form != want:
+                        for d in (pwl.gt(form, want), pwl.gt(want, form)):
+                            stats["queries"] += 1
+                            v, pt = pwl.decide(base + rc + [d], order)
+                            if v == "point" and not found:
+                                found = "for index %d on an array of %d elements the code selects element %d, RFC 9535 selects element %d" % (
+                                    pt["i"], pt["len"], pwl.leval(form, pt), pwl.leval(want, pt))
+                for oname, oc in OUT.items():
+                    stats["queries"] += 1
+                    v, pt = pwl.decide(base + oc, order)
+                    if v == "point" and not found:
+                        found = "for index %d on an array of %d elements (%s) the code selects element %d, RFC 9535 selects nothing" % (
+                            pt["i"], pt["len"], oname, pwl.leval(form, pt))
+        key = "%s|site:%s" % (index_fn, show(ix))
+        if found:
+            rep.bad("C11-R6", key, where, "index selector deviates from RFC 9535 2.3.3.2: " + found)
+            problems.append(found)
         else:
-            if shape(ix) in (shape(I), shape(mk("add", [LEN, neg(absI)]))):
-                rep.bad("C11-R6", "%s|element" % index_fn, T.loc(s["node"]), "element index is `%s`; RFC 9535: i, or len + i for negative i" % show(ix))
-            else:
-                rep.note("C11-R6 abstains: index expression `%s`" % show(ix))
+            rep.ok("C11-R6", key, where, "under its guards %s the fetch `a[%s]` is exactly the RFC's element" % ([show(g) for g in guards], show(ix)))
+    # completeness: wherever the RFC selects an element, some site's guards hold
+    for rname, (rc, want) in R.items():
+        found = None
+        choices = [[]]
+        for guards in site_guards:
+            choices = [ch + [flip(g)] for ch in choices for g in guards] if guards else []
+        for ch in choices:
+            conj = [[]]
+            for g in ch:
+                conj = [a + b for a in conj for b in cmp_cases(g)]
+            for c in conj:
+                stats["queries"] += 1
+                v, pt = pwl.decide(domain + rc + c, order)
+                if v == "point" and not found:
+                    found = "index %d on an array of %d elements selects nothing, RFC 9535 selects element %d" % (pt["i"], pt["len"], pwl.leval(want, pt))
+        key = "%s|%s" % (index_fn, rname)
+        if found:
+            rep.bad("C11-R6", key, prog.loc_of(index_fn), "index selector deviates from RFC 9535 2.3.3.2: " + found)
+        else:
+            rep.ok("C11-R6", key, prog.loc_of(index_fn), "every %s in-range index reaches an element fetch" % rname)
+    rep.extra["c11_r6_index_region_analysis"] = stats
